@@ -119,6 +119,26 @@ def cases(rng, tier):
         c = "STORE " + " ".join(toks)
         INFO[c] = ("wire", plan)
         out.append(c)
+    # time: an instance first heard of through records carrying the cache-flush bit (a goodbye / conflict-resolution packet as
+    # first contact), through ordinary records, and a mix; looked at half a second and one and a half seconds later
+    for k in range(6 if tier == "quick" else 24):
+        svc = [b"_srv", b"_tcp", b"local"]
+        me = [b"me"] + svc
+        owner = [b"p%d" % k] + svc
+        flush = [(True, True, True), (True, False, False), (False, False, True), (False, False, False), (True, True, False), (False, True, True)][k % 6]
+        addr = {"name": owner, "class": 1, "ttl": 120, "cf": flush[0], "rdata": ("T", "A", [("I", 0xC0A80100 + k)])}
+        srv = {"name": owner, "class": 1, "ttl": 120, "cf": flush[1], "rdata": ("T", "SRV", [("I", 0), ("I", 0), ("I", 8000 + k), ("N", owner)])}
+        txt = {"name": owner, "class": 1, "ttl": 120, "cf": flush[2], "rdata": ("T", "TXT", [("L", [(0, b"k=v")])])}
+        pkt = pC13.query_pkt(0, [])
+        pkt["flags"] = 0x8400
+        pkt["ans"] = [addr, srv, txt]
+        b, _ = dns.encode_marked(pkt, rng, 0)
+        toks = ["AA"] + dns.rr_toks({"name": svc, "class": 1, "ttl": 120, "cf": False, "rdata": ("T", "PTR", [("N", me)])})
+        toks += ["D"] + dns.name_toks(svc) + dns.name_toks(me) + [b.hex()]
+        toks += ["T", "1", "K"] + dns.name_toks(svc) + ["T", "2", "K"] + dns.name_toks(svc)
+        c = "STORE " + " ".join(toks)
+        INFO[c] = ("timed", flush)
+        out.append(c)
     for n in range(0, 6 if tier == "quick" else 7):
         for tup in itertools.product(["a", ".", "\\", "é"], repeat=n):
             out.append("ESCAPE " + ("".join(tup).encode().hex() or "-"))
@@ -168,6 +188,20 @@ def oracle(case, out):
         esc, back, _ = out.split()
         if back != (s.hex() or "-"):
             return "unescape(escape(%r)) = %s" % (s, back)
+        return None
+    if INFO[case][0] == "timed":
+        # records received with the cache-flush bit live one second, the others their TTL: after 1.5 s the instance is reported
+        # iff one of its records came without the bit
+        flush = INFO[case][1]
+        ks = [x for x in out.split(" | ") if x.startswith("K ")]
+        if len(ks) != 2:
+            return "discovery run failed: %r" % out[:200]
+        if not ks[0].startswith("K 1"):
+            return "half a second after its announcement the instance is not reported: %r" % ks[0][:160]
+        want = 0 if all(flush) else 1
+        if not ks[1].startswith("K %x" % want):
+            return ("1.5 s after an announcement whose records carried the cache-flush bit %r (address, SRV, TXT), get_known_services "
+                    "reports %r, expected %d instance(s)" % (flush, ks[1][:160], want))
         return None
     if INFO[case][0] == "wire":
         plan = INFO[case][1]
